@@ -330,3 +330,10 @@ L.axiom(T, "callee-code-is-code-of", L.FA(f, z3.Implies(callee_code(f) != L.NONE
 L.axiom(T, "code-of-not-none", L.FA(f, code_of(f) != L.NONE, [code_of(f)]))
 
 R.INLINE_CTORS["monkeytype.db.base:CallTraceStoreLogger"] = "StoreLogger"
+
+# the installed profiler may be tested for being a CallTracer and then read like one (an edit of trace_calls doing so stays within reach)
+is_call_tracer = declare_pred("is_call_tracer", L.V, L.B)
+from theories import types as _TYe
+_TYe.ISINSTANCE["monkeytype.tracing:CallTracer"] = lambda ip, o: is_call_tracer(as_v(o))
+R.TAG_ALIAS = getattr(R, "TAG_ALIAS", {})
+R.TAG_ALIAS["Profiler"] = "Tracer"
